@@ -75,6 +75,10 @@ type FuncVal struct {
 type ExternFn func(ev *Evaluator, pos token.Pos, recv Value, args []Value) Value
 
 type Evaluator struct {
+	// PreCall / PostCall see the arguments before, and the arguments and result after, every top-level CallFunc
+	// (the rules use them to present structs with embedded structs flat to their harnesses).
+	PreCall  func(args []Value)
+	PostCall func(args []Value, res Value)
 	Fset     *token.FileSet
 	FuncDecl func(*types.Func) (*ast.FuncDecl, *packages.Package)
 	Extern   map[string]ExternFn
@@ -179,6 +183,16 @@ func (ev *Evaluator) CallFuncBound(fn *types.Func, args ...Value) (res Value, er
 }
 
 func (ev *Evaluator) CallFunc(fn *types.Func, args ...Value) (res Value, err error) {
+	if ev.PreCall != nil {
+		ev.PreCall(args)
+	}
+	if ev.PostCall != nil {
+		defer func() {
+			if err == nil {
+				ev.PostCall(args, res)
+			}
+		}()
+	}
 	if ev.Adapt != nil {
 		adapted, aerr := ev.Adapt(fn, args)
 		if aerr != nil {
